@@ -24,8 +24,19 @@ class Span(enum.Enum):
     NAME = "g"
 
 
+class NumEnum(int, enum.Enum):
+    A = 1
+    B = 2
+
+
+class Swap(str, enum.Enum):      # every name is another member's value
+    a = "b"
+    b = "a"
+
+
 ENUM_SOURCES = [Color.R, Color.G, Stamp.EPOCH, Stamp.LATER, Span.SHORT, Span.NAME]
-EXTRA_T = [datetime.datetime, datetime.date, datetime.time, datetime.timedelta, uuid.UUID, Color, complex]
+ENUM_TARGET_VALUES = ["a", "b", "A", "B", "R", "G", "g", 1, 2, "1", 1.0, True, [1], ["a"], ("b",), b"a", None, 3]
+EXTRA_T = [datetime.datetime, datetime.date, datetime.time, datetime.timedelta, uuid.UUID, Color, complex, NumEnum, Swap]
 
 
 def union_targets():
@@ -180,7 +191,9 @@ def judge(t, v):
 def run_judge(i_seed):
     rng = random.Random(i_seed)
     k0 = rng.random()
-    if k0 < 0.04:
+    if k0 < 0.03:
+        t, v = rng.choice([Color, NumEnum, Swap]), rng.choice(ENUM_TARGET_VALUES)
+    elif k0 < 0.07:
         t, v = rng.choice([dict, dict, list, tuple, str]), rng.choice([[{"a": 1, "b": 2}], ({"a": 1},), [{"a": 1, "b": 2}, {"c": 3, "d": 4}], [("a", 1), ("b", 2)],
                                                                         [["a", 1]], [{"a": 1}], [{}], [[]], [{"a": {"b": 1}}]])
     elif k0 < 0.1:
